@@ -441,7 +441,7 @@ OnHDone(g, e) ==
       (* gather_and_close: returns only when everything requested before the call has finished *)
       vWait == IF h.kind = "gac" /\ okRes
                THEN Chk("C08.wait", e.h, (h.tasks \cap g.alive) = {} /\ Live(g) \cap h.tasks = {})
-                    \cup UNION {ChkK("C08.wait", r, ReqComplete(g, r) \/ g.size = 0,
+                    \cup UNION {ChkK("C08.wait", r, ReqComplete(g, r) \/ g.size = 0 \/ g.extCanc,     \* (a cancelled awaiter cancels spawners)
                                      IF ReqKfE(g, r) THEN "KF-E" ELSE "") : r \in h.reqs}
                     \cup UNION {Chk("C08.wait", r, (g.alive \cap {id \in g.C : g.T[id].r = r}) = {}) : r \in h.reqs}
                ELSE {}
